@@ -90,6 +90,8 @@ def parse_spec(path):
         s = raw.strip()
         if not s or s.startswith("##"):
             continue
+        if s.startswith("@") and not s.startswith("@ghost") and stack and stack[-1].kind == "expand":
+            stack.pop()
         if s.startswith("@module"):
             parts = s.split()
             cur_mod = Section("module", parts[1], ln)
@@ -122,6 +124,7 @@ def parse_spec(path):
         if s.startswith("@expand"):
             sec = Section("expand", s[len("@expand"):].strip(), ln)
             container().children.append(sec)
+            stack.append(sec)
             cur_fn = None
             continue
         if s.startswith("@impl"):
@@ -872,8 +875,23 @@ class Gen:
         iid = "%s::%s!(%s)" % (modpath, name, args)
         self.emit("//@item-begin %s" % iid, ("glue",))
         start = len(self.out) + 1
+        ghosts = {}
+        for c in sec.children:
+            if c.kind == "ghost":
+                hdr = " ".join(tok_texts(c.arg[2:].strip() if c.arg.startswith("in") else c.arg))
+                ghosts[hdr] = c.text
+        used = set()
         for l in text.split("\n"):
             self.emit(l, ("src", sf.rel, 0))
+            ls = l.strip()
+            if ls.startswith("impl") and ls.endswith("{"):
+                hdr = " ".join(tok_texts(ls[:-1]))
+                if hdr in ghosts:
+                    self.emit_ghost(ghosts[hdr], None)
+                    used.add(hdr)
+        for h in ghosts:
+            if h not in used:
+                raise ExtractError("lost anchor: expansion of %s has no `%s`" % (name, h))
         self.emit("//@item-end %s" % iid, ("glue",))
         self.rule_uses.append(("R4", iid))
         # register functions inside the expansion for obligation mapping
